@@ -5,13 +5,13 @@ import traceback
 from vlib import patch
 
 
-def run_main(argv, cwd=None):
+def run_main(argv, cwd=None, tty=False):
     """-> dict(status, out, err, exc). SystemExit and uncaught exceptions are mapped to the exit status
     the interpreter would return."""
     mod = importlib.import_module("btc_hd_wallet.__main__")
     exc = None
     status = 0
-    with patch.cli(argv, cwd) as io:
+    with patch.cli(argv, cwd, tty) as io:
         try:
             mod.main()
         except SystemExit as e:
